@@ -570,6 +570,7 @@ struct SortedRun {
     pops: u64,
     found: u64,
     bad_push_panics: u64,
+    max_live: usize,
 }
 
 fn run_sorted_case<I, C>(
@@ -660,6 +661,7 @@ where
         let obs = catch(|| -> Result<u64, String> {
             let items: Vec<I> = real.iter().copied().collect();
             let expected: Vec<I> = model.values().copied().collect();
+            run.max_live = run.max_live.max(expected.len());
             if items != expected {
                 return Err(format!("iter() = {:?}, model {:?}", items, expected));
             }
@@ -766,25 +768,35 @@ fn gen_random_sorted_ops(rng: &mut Rng, n: usize) -> Vec<SOp> {
     let mut ops = Vec::with_capacity(n);
     let mut max_pushed = 0u32;
     let mut low = 1u32;
+    // Per-history profile: balanced (the population stays small), growing
+    // (pushes dominate: many live items), or middle-heavy (a large population
+    // riddled with removals anywhere in the live range, few pops).
+    let profile = rng.below(4);
+    let weights: [u32; 7] = match profile {
+        0 | 1 => [30, 8, 4, 30, 10, 10, 1],
+        2 => [50, 10, 3, 25, 4, 4, 1],
+        _ => [40, 6, 2, 45, 2, 2, 1],
+    };
     for _ in 0..n {
-        let op = match rng.weighted(&[30, 8, 4, 30, 10, 10, 1]) {
+        let op = match rng.weighted(&weights) {
             0 => SOp::PushNext,
             1 => SOp::PushSkip,
             2 => SOp::PushErased,
             3 => {
                 // remove near the front, the back, the middle, or absent
-                let k = match rng.below(5) {
+                let k = match if profile == 3 { 2 + rng.below(4) } else { rng.below(5) } {
                     0 => low,
                     1 => max_pushed,
                     2 => max_pushed.saturating_sub(rng.below(3) as u32),
                     3 => low + rng.below(4) as u32,
-                    _ => {
+                    4 | 5 => {
                         if max_pushed >= low {
                             low + rng.below((max_pushed - low + 1) as u64) as u32
                         } else {
                             max_pushed + 1
                         }
                     }
+                    _ => low,
                 };
                 SOp::Remove(k)
             }
@@ -917,6 +929,11 @@ fn record_sorted(
     ctx.feature_n("c16.pops", run.pops);
     ctx.feature_n("c16.successful_finds", run.found);
     ctx.feature_n("c16.bad_push_panics_observed", run.bad_push_panics);
+    ctx.maximum("c16.max_live_items", run.max_live as u64);
+    ctx.maximum("c16.max_middle_removals_in_one_history", run.mid_removals);
+    if run.mid_removals >= 32 {
+        ctx.feature("c16.histories_with_32_or_more_middle_removals");
+    }
     if run.mid_removals > 0 || run.pops > 0 {
         let sig = if sweep_code != u64::MAX {
             mix(&[3, backing as u64, sweep_code])
